@@ -43,6 +43,7 @@ import (
 	goruler "github.com/attestantio/dirk/services/ruler/golang"
 	standardsigner "github.com/attestantio/dirk/services/signer/standard"
 	localunlocker "github.com/attestantio/dirk/services/unlocker/local"
+	"github.com/google/uuid"
 	"github.com/herumi/bls-eth-go-binary/bls"
 	"github.com/rs/zerolog"
 	pb "github.com/wealdtech/eth2-signer-api/pb/v1"
@@ -65,6 +66,7 @@ type dkgInst struct {
 	id       uint64
 	name     string
 	store    e2wtypes.Store
+	fstore   *flakyStore
 	fetcher  *memfetcher.Service
 	process  *standardprocess.Service
 	handler  *receiver.Handler
@@ -72,6 +74,30 @@ type dkgInst struct {
 	lister   *standardlister.Service
 	rules    *standardrules.Service
 	unlocker *localunlocker.Service
+}
+
+// flakyStore is the instance's wallet store; when armed, the first wallet read AFTER the next account write fails once
+// (a transient I/O error, a read-after-write miss of an object store).
+type flakyStore struct {
+	*scratch.Store
+	armed, wrote atomic.Bool
+}
+
+func (s *flakyStore) StoreAccount(walletID uuid.UUID, accountID uuid.UUID, data []byte) error {
+	err := s.Store.StoreAccount(walletID, accountID, data)
+	if s.armed.Load() {
+		s.wrote.Store(true)
+	}
+	return err
+}
+
+func (s *flakyStore) RetrieveWallet(walletName string) ([]byte, error) {
+	if s.armed.Load() && s.wrote.Load() {
+		s.armed.Store(false)
+		s.wrote.Store(false)
+		return nil, errors.New("injected: wallet read failed")
+	}
+	return s.Store.RetrieveWallet(walletName)
 }
 
 type dkgFault struct {
@@ -116,7 +142,8 @@ func newCluster(dir string, ids []uint64, timeout time.Duration, overGRPC bool) 
 	ctx := context.Background()
 	for i, id := range ids {
 		in := &dkgInst{id: id, name: peerName(i)}
-		in.store = scratch.New()
+		in.fstore = &flakyStore{Store: scratch.New().(*scratch.Store)}
+		in.store = in.fstore
 		enc := keystorev4.New()
 		if _, err := distributed.CreateWallet(ctx, "DW", in.store, enc); err != nil {
 			panic(err)
@@ -461,6 +488,23 @@ func (r *router) SendContribution(_ context.Context, recipient *core.Endpoint, a
 	res, err := deliver()
 	if f != nil && f.kind == "dup" && err == nil {
 		res, err = deliver()
+	}
+	if f != nil && (f.kind == "dupalter" || f.kind == "dupalter0") && err == nil {
+		// the genuine contribution once more — same share — but with one entry of the vector altered (the last: a higher
+		// coefficient; dupalter0: the constant term)
+		alt := append([]bls.PublicKey{}, vVec...)
+		var other bls.SecretKey
+		other.SetByCSPRNG()
+		if f.kind == "dupalter0" {
+			alt[0] = *other.GetPublicKey()
+		} else {
+			alt[len(alt)-1] = *other.GetPublicKey()
+		}
+		req2 := &pb.ContributeRequest{Account: account, Secret: sendSecret.Serialize()}
+		for i := range alt {
+			req2.VerificationVector = append(req2.VerificationVector, alt[i].Serialize())
+		}
+		res, err = to.handler.Contribute(callerCtx(r.from.name), wire(req2, &pb.ContributeRequest{}))
 	}
 	if err != nil {
 		return bls.SecretKey{}, nil, err
@@ -849,6 +893,13 @@ func dkgEngine(workdir string) {
 					c.fault.arg = p[4]
 				}
 			}
+			if c.fault != nil && c.fault.kind == "storeread" {
+				// not a message fault: the wallet store of instance <to> fails its first read after the account has been written
+				if x := c.insts[c.fault.to]; x != nil {
+					x.fstore.armed.Store(true)
+				}
+				c.fault = nil
+			}
 			genPass := []byte("pass")
 			if c.fault != nil && c.fault.kind == "nopass" {
 				// the client leaves the passphrase out and relies on the instances' generation passphrase
@@ -1092,6 +1143,18 @@ func dkgEngine(workdir string) {
 		// share ownership: what does `owner` hand to caller `asker` in reply to a valid contribution?
 		case "shareowner":
 			res = c.shareOwner(u64(f[1]), u64(f[2]), unhexStr(f[3]))
+		case "ilist":
+			// ilist <inst> <client> <path>: the listing a client gets from that instance (names, sorted)
+			in := c.insts[u64(f[1])]
+			r, accts := in.lister.ListAccounts(context.Background(), &checker.Credentials{Client: unhexStr(f[2]), RequestID: "r"}, []string{unhexStr(f[3])})
+			var names []string
+			for _, a := range accts {
+				if wp, ok := a.(e2wtypes.AccountWalletProvider); ok {
+					names = append(names, wp.Wallet().Name()+"/"+a.Name())
+				}
+			}
+			sort.Strings(names)
+			res = coreStr(r) + " " + strings.Join(names, ",")
 		case "shareowners":
 			res = c.shareOwners(u64(f[1]), unhexStr(f[2]))
 		default:
